@@ -14,7 +14,9 @@ import (
 	"math/big"
 	"time"
 
+	"github.com/google/certificate-transparency-go/asn1"
 	"github.com/google/certificate-transparency-go/x509"
+	"github.com/google/certificate-transparency-go/x509/pkix"
 
 	"verif/harness/pki"
 )
@@ -25,6 +27,10 @@ type certOpts struct {
 	NoKeyUsage bool     // no keyUsage extension
 	NoAKI      bool     // std issuer: no authority key id although the parent has a subject key id
 	EKUNames   []string // std issuer: extended key usages by name (ekuOIDs), in this order; overrides EKUs
+	// Recrit, when not nil, fixes the critical flag of the extensions it names (dotted object identifier):
+	// the certificate is issued a second time by the same issuer with its complete extension list given
+	// explicitly, same values, same order, and the flags drawn by the harness instead of the issuer's habits.
+	Recrit map[string]bool
 }
 
 var stdSerial int64 = 500000
@@ -36,6 +42,9 @@ var stdEKU = map[x509.ExtKeyUsage]stdx509.ExtKeyUsage{
 }
 
 func issue(std bool, o certOpts, parent *pki.Entity) *pki.Entity {
+	if o.Recrit != nil {
+		return reissue(std, o, parent)
+	}
 	if !std {
 		p := o.Opts
 		p.Mutate = func(t *x509.Certificate) {
@@ -117,4 +126,33 @@ func issue(std bool, o certOpts, parent *pki.Entity) *pki.Entity {
 		panic(err)
 	}
 	return &pki.Entity{Cert: c, DER: der, Key: key}
+}
+
+// reissue issues the certificate as the issuer would, reads the extension list off the result (by hand,
+// der.go) and issues it again from a template that produces no extension of its own, with that list as
+// explicit extensions and the critical flags of o.Recrit.
+func reissue(std bool, o certOpts, parent *pki.Entity) *pki.Entity {
+	recrit := o.Recrit
+	o.Recrit = nil
+	first := issue(std, o, parent)
+	raw, ok := parseRawTBS(certTBS(first.DER))
+	if !ok {
+		panic("harness: cannot take the issued certificate apart")
+	}
+	var all []pkix.Extension
+	for _, x := range raw.exts {
+		all = append(all, pkix.Extension{Id: asn1.ObjectIdentifier(oidArcs(x.oid)), Critical: len(x.crit) == 3 && x.crit[2] != 0, Value: x.val})
+	}
+	for k := range all {
+		if c, ok := recrit[all[k].Id.String()]; ok {
+			all[k].Critical = c
+		}
+	}
+	if o.IsCA {
+		panic("harness: explicit extension lists are for end-entity certificates")
+	}
+	o.EKUs, o.EKUNames, o.UnknownEKU, o.DNSNames, o.SKI, o.AKI, o.SelfAKI = nil, nil, nil, nil, nil, nil, nil
+	o.NoBC, o.NoKeyUsage, o.NoAKI = true, true, true
+	o.ExtraExt = all
+	return issue(std, o, parent)
 }
